@@ -23,7 +23,7 @@ DRIVER = "C14"
 INTERACTIVE = True
 NETS = {"btc": BTC, "ltc": LTC}
 RULE = ("correspondence: one driver line per call (merkle, merkle_pair, parse_header, stream_header, block_hash, block_id, "
-        "set_nonce_hash, block_parse, post_unpack, parse_merkleblock) plus spec lines (merkle_spec, build, matched); "
+        "set_nonce_hash, block_history, block_parse, post_unpack, parse_merkleblock) plus spec lines (merkle_spec, build, matched); "
         "distinct = distinct line; non-trivial = the model returns a value (not an exception)")
 PARTIAL = ["transaction wire codec is abstract in the theorems (hypotheses tx_frame / tx_parser_consumes / tx_parser_exact; "
            "C07 owns it); in the correspondence run transactions are parsed by the real Tx class through an oracle",
@@ -165,6 +165,160 @@ def impl_set_nonce_hash(fields, n2):
         pass
     b.set_nonce(n2)
     return b.hash()
+
+
+# ---- histories on one Block object ---------------------------------------------------------------------------
+# op strings: "h" hash(), "i" id(), "S" str(b), "s" stream_header, "a" as_bin(), "n:<int>" set_nonce,
+# "v:<int>" version =, "t:<int>" timestamp =, "d:<int>" difficulty =, "p:<hex>" previous_block_hash =, "r:<hex>" merkle_root =
+_ATTR = {"v": "version", "t": "timestamp", "d": "difficulty", "p": "previous_block_hash", "r": "merkle_root"}
+
+
+def op_token(op):
+    k, _, val = op.partition(":")
+    if k in "nvtd" and val:
+        return k + format(int(val), "x")
+    return k + val
+
+
+def apply_op(b, op):
+    """run one op on the Block object; returns None for an assignment, else a thunk result (bytes) or raises"""
+    k, _, val = op.partition(":")
+    if k == "h":
+        return b.hash()
+    if k == "i":
+        return bytes.fromhex(b.id())
+    if k == "S":
+        txt = str(b)
+        if repr(b) != txt:
+            raise AssertionError("repr differs from str")
+        return bytes.fromhex(txt[txt.index("[") + 1:txt.index("]")])
+    if k == "s":
+        f = io.BytesIO()
+        b.stream_header(f)
+        return f.getvalue()
+    if k == "a":
+        return b.as_bin()
+    if k == "n":
+        b.set_nonce(int(val))
+    elif k in "vtd":
+        setattr(b, _ATTR[k], int(val))
+    elif k in "pr":
+        setattr(b, _ATTR[k], bytes.fromhex(val))
+    else:
+        raise ValueError("op " + op)
+    return None
+
+
+def new_block_obj(fields, ctor):
+    if ctor == "header":
+        return Block.parse_as_header(io.BytesIO(hdr80(*fields)))
+    if ctor == "from_bin_header":
+        return Block.parse(io.BytesIO(hdr80(*fields)), include_transactions=False)
+    return Block(*fields)
+
+
+def impl_history(fields, ops, ctor="new"):
+    b = new_block_obj(fields, ctor)
+    obs = []
+    for op in ops:
+        if op[0] in "hiSsa":
+            obs.append(call(apply_op, b, op))
+        else:
+            apply_op(b, op)
+    return "[" + " ".join(obs) + "]"
+
+
+def rand_setter(rng, valid=True):
+    k = rng.choice("nvtdpr")
+    if k in "pr":
+        n = 32 if valid or rng.random() < 0.5 else rng.choice([0, 1, 31, 33, 64])
+        return k + ":" + rng.randbytes(n).hex()
+    vals = [0, 1, 2, 0x7fffffff, 0x80000000, 0xffffffff, rng.getrandbits(32), rng.getrandbits(8)]
+    if not valid and rng.random() < 0.4:
+        vals = [0x100000000, 1 << 40]
+    return k + ":" + str(rng.choice(vals))
+
+
+def gen_histories(rng, tier, valid_only=False):
+    """(fields, ops): every observer / setter / observer triple, then random interleavings"""
+    def fields():
+        return (rng.choice([1, 2, 0x20000000]), rng.randbytes(32), rng.randbytes(32), rng.getrandbits(32),
+                rng.choice([0x1d00ffff, rng.getrandbits(32)]), rng.getrandbits(32))
+    obs = ["h", "i", "S"]
+    for a in obs:
+        for k in "nvtdpr":
+            for b in obs:
+                st = rand_setter(rng)
+                while st[0] != k:
+                    st = rand_setter(rng)
+                yield fields(), [a, st, b]
+                yield fields(), [a, "a", st, "s", b, "a"]
+    for k in "nvtdpr":
+        f = fields()
+        ops = []
+        for _ in range(3):
+            st = rand_setter(rng)
+            while st[0] != k:
+                st = rand_setter(rng)
+            ops += [st, rng.choice(obs)]
+        yield f, ops
+    # the miner loop: nonces, then a timestamp bump, then a new merkle root
+    f = fields()
+    yield f, ["h", "n:1", "i", "n:4294967295", "h", "t:%d" % ((f[3] + 1) & 0xffffffff), "i", "n:0", "h",
+              "r:" + rng.randbytes(32).hex(), "S", "v:536870912", "h", "a"]
+    for _ in range(250 if tier == "quick" else 6000):
+        ops = []
+        for _ in range(rng.randint(2, 12)):
+            if rng.random() < 0.5:
+                ops.append(rng.choice(obs + ["a", "s"]))
+            else:
+                ops.append(rand_setter(rng, valid=valid_only or rng.random() < 0.85))
+        ops.append(rng.choice(obs))
+        yield fields(), ops
+
+
+def chk_history(inp):
+    fields = inp["fields"]
+    fields = (fields[0], bytes.fromhex(fields[1]), bytes.fromhex(fields[2]), fields[3], fields[4], fields[5])
+    ctor = inp.get("ctor", "new")
+    if ctor == "block":
+        hdr, txbins = inp["hdr"], [bytes.fromhex(t) for t in inp["txs"]]
+        net = NETS[inp["coin"]]
+        txids = [net.tx.from_bin(t).hash() for t in txbins]
+        raw = block_wire((hdr[0], bytes.fromhex(hdr[1]), hdr[2], hdr[3], hdr[4]), txbins, txids)
+        b = net.block.parse(io.BytesIO(raw))
+    else:
+        b = new_block_obj(fields, ctor)
+
+    def current():
+        return hdr80(b.version, bytes(b.previous_block_hash), bytes(b.merkle_root), b.timestamp, b.difficulty, b.nonce)
+    ops = list(inp["ops"]) + ["h", "i", "S", "s"]
+    for j, op in enumerate(ops):
+        try:
+            got = apply_op(b, op)
+        except Exception as e:
+            return {"kind": "history-op-raises", "op": op, "index": j, "detail": "%s: %s" % (type(e).__name__, e)}
+        if got is None:
+            continue
+        raw = current()                                # what the header is NOW, from the attributes
+        f = io.BytesIO()
+        b.stream_header(f)
+        if f.getvalue() != raw or len(raw) != 80:
+            return {"kind": "header-not-80-bytes-of-fields", "index": j}
+        want = dsha(raw)
+        k = op[0]
+        exp = want if k == "h" else want[::-1] if k in "iS" else raw
+        if k == "a":
+            got = got[:80]
+        if got != exp:
+            return {"kind": "id-stale-after-history" if k in "hiS" else "header-stream-after-history",
+                    "op": op, "index": j, "history": ops[:j + 1][-6:], "got": got.hex()[:64],
+                    "expected": exp.hex()[:64]}
+    return None
+
+
+def _history_inp(f, ops, ctor="new"):
+    return {"fields": [f[0], f[1].hex(), f[2].hex(), f[3], f[4], f[5]], "ops": ops, "ctor": ctor}
 
 
 def impl_block_parse(coin, inc, chk, data):
@@ -421,6 +575,17 @@ def model_cases(rng, tier):
         yield Case("block_id " + a, (lambda f=f: call(impl_block_id, f)))
         n2 = rng.choice([0, 1, 0xffffffff, 0x100000000, rng.getrandbits(32)])
         yield Case("set_nonce_hash %s %s" % (a, arg(n2)), (lambda f=f, n2=n2: call(impl_set_nonce_hash, f, n2)))
+    # --- histories on one Block object (memo attribute as state)
+    for f, ops in gen_histories(rng, tier):
+        a = " ".join(arg(x) for x in f)
+        toks = "[" + ",".join(op_token(o) for o in ops) + "]"
+        ctor = "new"
+        if rng.random() < 0.3:
+            ctor = rng.choice(["header", "from_bin_header"])
+        yield Case("block_history %s %s" % (a, toks), (lambda f=f, ops=ops, ctor=ctor: impl_history(f, ops, ctor)),
+                   {"ctor": ctor})
+        if rng.random() < 0.25:
+            yield Case("block_history_spec %s %s" % (a, toks), (lambda f=f, ops=ops: impl_history(f, ops, "new")))
     # --- blocks (transactions through the oracle)
     try:
         block_streams = list(gen_block_streams(rng, tier))
@@ -759,6 +924,19 @@ def prop_cases(rng, tier):
             continue
         fj = [f[0], f[1].hex(), f[2].hex(), f[3], f[4], f[5]]
         yield PropCase("header_fields", {"fields": fj}, (lambda fj=fj: chk_header_fields(fj)))
+    kk = 0
+    for f, ops in gen_histories(rng, tier, valid_only=True):
+        kk += 1
+        inp = _history_inp(f, ops, ["new", "header", "from_bin_header"][kk % 3])
+        yield PropCase("history", inp, (lambda inp=inp: chk_history(inp)))
+    for n in (1, 2, 3, 5):
+        for coin in ("btc", "ltc"):
+            binp = _block_inp(rng, coin, n)
+            if "generator_error" in binp:
+                continue
+            for f, ops in itertools.islice(gen_histories(rng, "quick", valid_only=True), 40 if tier == "quick" else 150):
+                inp = dict(_history_inp(f, ops, "block"), coin=coin, hdr=binp["hdr"], txs=binp["txs"])
+                yield PropCase("history", inp, (lambda inp=inp: chk_history(inp)))
     for s in gen_header_bytes(rng, tier):
         yield PropCase("header_bytes", {"data": s.hex()}, (lambda s=s: chk_header_bytes(s.hex())))
     # real Block objects from random transactions through the public API: every size 1..70
@@ -786,6 +964,8 @@ def prop_cases(rng, tier):
 
 
 def replay_input(check, inp):
+    if check == "history":
+        return chk_history(inp)
     if check == "dup_attack":
         return chk_dup_attack(inp)
     if check == "merkle":
@@ -836,6 +1016,10 @@ def search(rng, tier, disagreements, known_ids):
             elif fn == "parse_header":
                 hx = toks[1][1:]
                 cands.append(PropCase("header_bytes", {"data": hx}, (lambda hx=hx: chk_header_bytes(hx))))
+            elif fn in ("block_history", "block_history_spec"):
+                for f, ops in itertools.islice(gen_histories(rng, "quick", valid_only=True), 200):
+                    inp = _history_inp(f, ops)
+                    cands.append(PropCase("history", inp, (lambda inp=inp: chk_history(inp))))
             elif fn in ("stream_header", "block_hash", "block_id", "set_nonce_hash"):
                 f = [int(toks[1][1:], 16), toks[2][1:], toks[3][1:], int(toks[4][1:], 16), int(toks[5][1:], 16), int(toks[6][1:], 16)]
                 if len(f[1]) == 64 and len(f[2]) == 64 and all(f[k] <= 0xffffffff for k in (0, 3, 4, 5)):
